@@ -20,6 +20,13 @@ from pgradd.GroupAdd.Library import GroupLibrary             # noqa: E402
 from pgradd.Error import GroupSyntaxError                    # noqa: E402
 
 
+class _Scheme(object):
+    """stands for some scheme object other than None"""
+
+
+_SCHEME = _Scheme()
+
+
 def _ref_obj(ref):
     """Build the python object a ref denotes (may raise)."""
     if ref['kind'] == 'parse':
@@ -102,7 +109,11 @@ def _replay_spellings(ctx, sps):
         # "psgs : iterable of strs": a tuple, a generator, an iterator denote the same multiset as the list
         others = [call(Group, None, csg, tuple(psgs)), call(Group, None, csg, (p for p in psgs)),
                   call(Group, None, csg, iter(list(reversed(psgs))))]
+        # the scheme a group object belongs to is not part of its identity
+        k3, hs_, _ = call(Group, _SCHEME, csg, list(psgs))
         checks = [
+            ('other-scheme', k3 == 'value' and hs_ == g and g == hs_ and hash(hs_) == hash(g)
+             and {hs_: 1}.get(g) == 1 and {g: 1}.get(hs_) == 1),
             ('ctor-iterable', kind2 == 'value' and all(k_ == 'value' and o_ == h and hash(o_) == hash(h) and str(o_) == canon
                                                        for k_, o_, _ in others)),
             ('name', str(g) == canon),
